@@ -62,3 +62,21 @@ def decode_table(data):
     from pamqp import decode
     consumed, value = decode.field_table(data)
     return {'consumed': consumed, 'decoded': value}
+
+
+def mapping_views():
+    """For every method class and Basic.Properties, in one process and twice over: the six mapping views."""
+    import warnings
+    from pamqp import commands
+    warnings.simplefilter('ignore')
+    classes = list(commands.INDEX_MAPPING.values()) + [commands.Basic.Properties]
+    out = []
+    for _round in range(2):
+        for cls in classes:
+            obj = cls()
+            names = [k for k, _ in iter(obj)]
+            out.append({'class': cls.name, 'iter': names, 'len': len(obj), 'attributes': list(cls.attributes()),
+                        'contains': [n in obj for n in names] + ['no_such_argument' in obj],
+                        'getitem_agrees': all(obj[n] == getattr(obj, n) or obj[n] is getattr(obj, n) for n in names),
+                        'types': [cls.amqp_type(n) for n in names], 'dict_keys': list(dict(obj))})
+    return out
